@@ -8,8 +8,11 @@ package main
 import (
 	"fmt"
 	"go/ast"
+	"go/constant"
+	"go/token"
 	"os"
 	"path/filepath"
+	"strconv"
 	"strings"
 )
 
@@ -273,6 +276,595 @@ func flatStmts(s *source, list []ast.Stmt, out *[]string) {
 	}
 }
 
+
+// ---------------------------------------------------------------------------------------------------------
+// width-aware translation of integer expressions (round 4).  The shared translator maps Go integers to Lean
+// `Int` and drops conversions, so `int(seconds)*1000+500` and `int(seconds*1000+500)` translate alike.  Here
+// every sub-expression carries its Go type (width + signedness); the result is a Lean `BitVec` term in which
+// `int`/`uint` have the width `W` (a parameter of the emitted function: 64 on amd64/arm64, 32 on 386/arm):
+// arithmetic wraps at the width of its operand type, a conversion from an unsigned type zero-extends or
+// truncates (`BitVec.setWidth`), from a signed type sign-extends or truncates (`BitVec.signExtend`), an
+// untyped constant takes the type of the other operand.
+
+type c19Ty struct {
+	bits    string // "W" | "8" | "16" | "32" | "64"
+	signed  bool
+	untyped bool
+	val     constant.Value // for untyped constants
+}
+
+var c19IntTypes = map[string]c19Ty{
+	"int": {bits: "W", signed: true}, "uint": {bits: "W"}, "uintptr": {bits: "W"},
+	"int8": {bits: "8", signed: true}, "uint8": {bits: "8"}, "byte": {bits: "8"},
+	"int16": {bits: "16", signed: true}, "uint16": {bits: "16"},
+	"int32": {bits: "32", signed: true}, "uint32": {bits: "32"},
+	"int64": {bits: "64", signed: true}, "uint64": {bits: "64"},
+}
+
+func (t c19Ty) goName() string {
+	for _, n := range []string{"int", "uint", "int8", "uint8", "int16", "uint16", "int32", "uint32", "int64", "uint64"} {
+		if c19IntTypes[n].bits == t.bits && c19IntTypes[n].signed == t.signed {
+			return n
+		}
+	}
+	return "?"
+}
+
+type c19W struct {
+	s    *source
+	rel  string
+	vars map[string]c19Ty // local variables / parameters with their declared integer type
+}
+
+// typedConst: a package-level constant; `untyped` unless the declaration carries a type.
+func (x *c19W) constOf(name string) (c19Ty, bool) {
+	f := x.s.file(x.rel)
+	if f == nil {
+		return c19Ty{}, false
+	}
+	for _, d := range f.Decls {
+		gd, ok := d.(*ast.GenDecl)
+		if !ok || gd.Tok != token.CONST {
+			continue
+		}
+		for _, sp := range gd.Specs {
+			vs := sp.(*ast.ValueSpec)
+			for i, n := range vs.Names {
+				if n.Name != name || i >= len(vs.Values) {
+					continue
+				}
+				v, ok := x.s.eval(x.rel, vs.Values[i])
+				if !ok || v.Kind() != constant.Int {
+					return c19Ty{}, false
+				}
+				if vs.Type == nil {
+					return c19Ty{untyped: true, val: v}, true
+				}
+				if id, ok := vs.Type.(*ast.Ident); ok {
+					if ty, ok := c19IntTypes[id.Name]; ok {
+						ty.val = v
+						return ty, true
+					}
+				}
+				return c19Ty{}, false
+			}
+		}
+	}
+	return c19Ty{}, false
+}
+
+func c19Lit(v constant.Value, bits string) string {
+	if constant.Sign(v) < 0 {
+		return fmt.Sprintf("(BitVec.ofInt %s (%s))", bits, v.ExactString())
+	}
+	return fmt.Sprintf("(BitVec.ofNat %s %s)", bits, v.ExactString())
+}
+
+// expr returns the Lean BitVec term (empty for an untyped constant, whose value is in the type) and the Go type.
+func (x *c19W) expr(e ast.Expr) (string, c19Ty, error) {
+	switch n := e.(type) {
+	case *ast.ParenExpr:
+		return x.expr(n.X)
+	case *ast.BasicLit:
+		v := constant.MakeFromLiteral(n.Value, n.Kind, 0)
+		if v.Kind() != constant.Int {
+			return "", c19Ty{}, fmt.Errorf("literal %s is not an integer", n.Value)
+		}
+		return "", c19Ty{untyped: true, val: v}, nil
+	case *ast.Ident:
+		if ty, ok := x.vars[n.Name]; ok {
+			return n.Name, ty, nil
+		}
+		if ty, ok := x.constOf(n.Name); ok {
+			if ty.untyped {
+				return "", ty, nil
+			}
+			return c19Lit(ty.val, ty.bits), ty, nil
+		}
+		return "", c19Ty{}, fmt.Errorf("identifier %s has no known integer type", n.Name)
+	case *ast.CallExpr:
+		id, ok := n.Fun.(*ast.Ident)
+		var to c19Ty
+		isTy := false
+		if ok {
+			to, isTy = c19IntTypes[id.Name]
+		}
+		if !isTy || len(n.Args) != 1 {
+			return "", c19Ty{}, fmt.Errorf("call %s is not an integer conversion", x.s.src(n))
+		}
+		in, from, err := x.expr(n.Args[0])
+		if err != nil {
+			return "", c19Ty{}, err
+		}
+		switch {
+		case from.untyped:
+			return c19Lit(from.val, to.bits), to, nil
+		case from.bits == to.bits:
+			return in, to, nil // same width: the bits are reinterpreted
+		case from.signed:
+			return fmt.Sprintf("(BitVec.signExtend %s %s)", to.bits, in), to, nil
+		default:
+			return fmt.Sprintf("(BitVec.setWidth %s %s)", to.bits, in), to, nil
+		}
+	case *ast.UnaryExpr:
+		if n.Op == token.SUB {
+			in, ty, err := x.expr(n.X)
+			if err != nil {
+				return "", c19Ty{}, err
+			}
+			if ty.untyped {
+				ty.val = constant.UnaryOp(token.SUB, ty.val, 0)
+				return "", ty, nil
+			}
+			return fmt.Sprintf("(- %s)", in), ty, nil
+		}
+	case *ast.BinaryExpr:
+		var op string
+		switch n.Op {
+		case token.ADD:
+			op = "+"
+		case token.SUB:
+			op = "-"
+		case token.MUL:
+			op = "*"
+		default:
+			return "", c19Ty{}, fmt.Errorf("operator %s outside the width-aware subset", n.Op)
+		}
+		a, ta, err := x.expr(n.X)
+		if err != nil {
+			return "", c19Ty{}, err
+		}
+		b, tb, err := x.expr(n.Y)
+		if err != nil {
+			return "", c19Ty{}, err
+		}
+		switch {
+		case ta.untyped && tb.untyped:
+			return "", c19Ty{untyped: true, val: constant.BinaryOp(ta.val, n.Op, tb.val)}, nil
+		case ta.untyped:
+			a, ta = c19Lit(ta.val, tb.bits), tb
+		case tb.untyped:
+			b, tb = c19Lit(tb.val, ta.bits), ta
+		}
+		if ta.bits != tb.bits || ta.signed != tb.signed {
+			return "", c19Ty{}, fmt.Errorf("operands of %s have different types (%s, %s)", x.s.src(n), ta.goName(), tb.goName())
+		}
+		ta.val = nil
+		return fmt.Sprintf("(%s %s %s)", a, op, b), ta, nil
+	}
+	return "", c19Ty{}, fmt.Errorf("expression %s outside the width-aware subset", x.s.src(e))
+}
+
+// localIntTypes: integer-typed parameters of fd and locals assigned from sync/atomic loads
+// (`seconds := atomic.LoadUint32(&rl.seconds)` has type uint32).
+func c19LocalIntTypes(s *source, fd *ast.FuncDecl) map[string]c19Ty {
+	vars := map[string]c19Ty{}
+	if fd.Type.Params != nil {
+		for _, p := range fd.Type.Params.List {
+			if id, ok := p.Type.(*ast.Ident); ok {
+				if ty, ok := c19IntTypes[id.Name]; ok {
+					for _, n := range p.Names {
+						vars[n.Name] = ty
+					}
+				}
+			}
+		}
+	}
+	loads := map[string]string{"atomic.LoadUint32": "uint32", "atomic.LoadInt32": "int32", "atomic.LoadUint64": "uint64", "atomic.LoadInt64": "int64"}
+	ast.Inspect(fd.Body, func(n ast.Node) bool {
+		if as, ok := n.(*ast.AssignStmt); ok && as.Tok == token.DEFINE && len(as.Lhs) == 1 && len(as.Rhs) == 1 {
+			if c, ok := as.Rhs[0].(*ast.CallExpr); ok {
+				if tn, ok := loads[s.src(c.Fun)]; ok {
+					if id, ok := as.Lhs[0].(*ast.Ident); ok {
+						vars[id.Name] = c19IntTypes[tn]
+					}
+				}
+			}
+		}
+		return true
+	})
+	return vars
+}
+
+// ---------------------------------------------------------------------------------------------------------
+// reply decoding as a FUNCTION (round 4): the statements of AcquireCtx / ReleaseCtx after the script run are
+// translated into a Lean if-chain over what go-redis handed back —
+//   errIsNil  = errors.Is(err, red.Nil)     errNonNil = err != nil     respNil = resp == nil
+//   isString / replyS = `reply, ok := resp.(string)`      isInt64 / replyI = `reply, ok := resp.(int64)`
+// — returning (result, an error is returned).  Logging calls are skipped; anything else is an extraction error.
+
+type c19Dec struct {
+	s     *source
+	atoms map[string]string // Go identifier -> Lean atom (bound by a type assertion)
+	kinds map[string]string // Go identifier -> "string" | "int"
+}
+
+func (d *c19Dec) cond(e ast.Expr) (string, error) {
+	switch n := e.(type) {
+	case *ast.ParenExpr:
+		return d.cond(n.X)
+	case *ast.Ident:
+		switch n.Name {
+		case "true", "false":
+			return n.Name, nil
+		}
+		if a, ok := d.atoms[n.Name]; ok && d.kinds[n.Name] == "bool" {
+			return a, nil
+		}
+	case *ast.UnaryExpr:
+		if n.Op == token.NOT {
+			in, err := d.cond(n.X)
+			if err != nil {
+				return "", err
+			}
+			return "(!" + in + ")", nil
+		}
+	case *ast.CallExpr:
+		if d.s.src(n) == "errors.Is(err, red.Nil)" {
+			return "errIsNil", nil
+		}
+	case *ast.BinaryExpr:
+		switch n.Op {
+		case token.LAND, token.LOR:
+			a, err := d.cond(n.X)
+			if err != nil {
+				return "", err
+			}
+			b, err := d.cond(n.Y)
+			if err != nil {
+				return "", err
+			}
+			op := "&&"
+			if n.Op == token.LOR {
+				op = "||"
+			}
+			return "(" + a + " " + op + " " + b + ")", nil
+		case token.EQL, token.NEQ, token.LSS, token.LEQ, token.GTR, token.GEQ:
+			l, r := d.s.src(n.X), d.s.src(n.Y)
+			neg := func(t string) string {
+				if n.Op == token.NEQ {
+					return "(!" + t + ")"
+				}
+				return t
+			}
+			if (n.Op == token.EQL || n.Op == token.NEQ) && r == "nil" {
+				switch l {
+				case "err":
+					if n.Op == token.NEQ {
+						return "errNonNil", nil
+					}
+					return "(!errNonNil)", nil
+				case "resp":
+					return neg("respNil"), nil
+				}
+			}
+			if id, ok := n.X.(*ast.Ident); ok {
+				if a, ok := d.atoms[id.Name]; ok {
+					switch d.kinds[id.Name] {
+					case "string":
+						if lit, ok := n.Y.(*ast.BasicLit); ok && lit.Kind == token.STRING && (n.Op == token.EQL || n.Op == token.NEQ) {
+							v, err := strconv.Unquote(lit.Value)
+							if err == nil {
+								return neg("(" + a + " == " + leanString(v) + ")"), nil
+							}
+						}
+					case "int":
+						if v, ok := d.s.eval("", n.Y); ok && v.Kind() == constant.Int {
+							ops := map[token.Token]string{token.EQL: "=", token.NEQ: "≠", token.LSS: "<", token.LEQ: "≤", token.GTR: ">", token.GEQ: "≥"}
+							return fmt.Sprintf("(decide (%s %s (%s : Int)))", a, ops[n.Op], v.ExactString()), nil
+						}
+					}
+				}
+			}
+		}
+	}
+	return "", fmt.Errorf("condition `%s` outside the translated subset", d.s.src(e))
+}
+
+// block translates a statement list; `cont` is the term for what follows the list (nil: nothing may follow).
+func (d *c19Dec) block(list []ast.Stmt, cont func() (string, error)) (string, error) {
+	if len(list) == 0 {
+		if cont == nil {
+			return "", fmt.Errorf("control reaches the end of the function without a return")
+		}
+		return cont()
+	}
+	rest := func() (string, error) { return d.block(list[1:], cont) }
+	switch x := list[0].(type) {
+	case *ast.ReturnStmt:
+		if len(x.Results) != 2 {
+			return "", fmt.Errorf("return `%s`: two results expected", d.s.src(x))
+		}
+		res, err := d.cond(x.Results[0])
+		if err != nil {
+			return "", err
+		}
+		switch d.s.src(x.Results[1]) {
+		case "nil":
+			return "(" + res + ", false)", nil
+		case "err":
+			return "(" + res + ", true)", nil
+		}
+		return "", fmt.Errorf("return `%s`: error result is neither nil nor err", d.s.src(x))
+	case *ast.BlockStmt:
+		return d.block(append(append([]ast.Stmt{}, x.List...), list[1:]...), cont)
+	case *ast.IfStmt:
+		if x.Init != nil {
+			return "", fmt.Errorf("if with init statement")
+		}
+		c, err := d.cond(x.Cond)
+		if err != nil {
+			return "", err
+		}
+		th, err := d.block(x.Body.List, rest)
+		if err != nil {
+			return "", err
+		}
+		var el string
+		if x.Else != nil {
+			el, err = d.block([]ast.Stmt{x.Else}, rest)
+		} else {
+			el, err = rest()
+		}
+		if err != nil {
+			return "", err
+		}
+		return "(if " + c + " then " + th + " else " + el + ")", nil
+	case *ast.ExprStmt:
+		if c, ok := x.X.(*ast.CallExpr); ok && strings.HasPrefix(d.s.src(c.Fun), "logx.") {
+			return rest()
+		}
+	case *ast.AssignStmt:
+		if len(x.Lhs) == 2 && len(x.Rhs) == 1 && x.Tok == token.DEFINE {
+			if ta, ok := x.Rhs[0].(*ast.TypeAssertExpr); ok && d.s.src(ta.X) == "resp" {
+				v, okv := x.Lhs[0].(*ast.Ident)
+				o, oko := x.Lhs[1].(*ast.Ident)
+				if okv && oko {
+					switch d.s.src(ta.Type) {
+					case "string":
+						d.atoms[v.Name], d.kinds[v.Name] = "replyS", "string"
+						d.atoms[o.Name], d.kinds[o.Name] = "isString", "bool"
+						return rest()
+					case "int64":
+						d.atoms[v.Name], d.kinds[v.Name] = "replyI", "int"
+						d.atoms[o.Name], d.kinds[o.Name] = "isInt64", "bool"
+						return rest()
+					}
+				}
+			}
+		}
+	}
+	return "", fmt.Errorf("statement `%s` outside the translated subset", d.s.src(list[0]))
+}
+
+// c19AfterScriptRun: the statements of fd that follow `resp, err := ….ScriptRunCtx(…)`.
+func c19AfterScriptRun(s *source, fd *ast.FuncDecl) ([]ast.Stmt, bool) {
+	for i, st := range fd.Body.List {
+		as, ok := st.(*ast.AssignStmt)
+		if !ok || len(as.Lhs) != 2 || len(as.Rhs) != 1 || s.src(as.Lhs[0]) != "resp" || s.src(as.Lhs[1]) != "err" {
+			continue
+		}
+		if c, ok := as.Rhs[0].(*ast.CallExpr); ok && strings.HasSuffix(s.src(c.Fun), ".ScriptRunCtx") {
+			return fd.Body.List[i+1:], true
+		}
+	}
+	return nil, false
+}
+
+// c19ArgList: the elements of a `[]string{…}` literal as a Lean `List String` over the parameters key / id / lease.
+func c19ArgList(s *source, a ast.Expr) (string, error) {
+	cl, ok := a.(*ast.CompositeLit)
+	if !ok || s.src(cl.Type) != "[]string" {
+		return "", fmt.Errorf("`%s` is not a []string literal", s.src(a))
+	}
+	var items []string
+	for _, el := range cl.Elts {
+		switch txt := s.src(el); {
+		case txt == "rl.key":
+			items = append(items, "key")
+		case txt == "rl.id":
+			items = append(items, "id")
+		default:
+			if c, ok := el.(*ast.CallExpr); ok && s.src(c.Fun) == "strconv.Itoa" && len(c.Args) == 1 {
+				items = append(items, "lease")
+			} else {
+				return "", fmt.Errorf("script argument `%s` is neither rl.key, rl.id nor strconv.Itoa(lease)", txt)
+			}
+		}
+	}
+	return "[" + strings.Join(items, ", ") + "]", nil
+}
+
+// ---------------------------------------------------------------------------------------------------------
+// stringx.Randn (round 4): constants with shifts, and the decision-making expressions of the loop translated.
+
+// c19ConstEval evaluates an integer constant expression of file rel, including shifts and masks
+// (the shared evaluator has none).  Go's precedence is in the AST.
+func c19ConstEval(s *source, rel string, e ast.Expr) (constant.Value, bool) {
+	switch x := e.(type) {
+	case *ast.BasicLit:
+		v := constant.MakeFromLiteral(x.Value, x.Kind, 0)
+		return v, v.Kind() == constant.Int
+	case *ast.ParenExpr:
+		return c19ConstEval(s, rel, x.X)
+	case *ast.Ident:
+		f := s.file(rel)
+		if f == nil {
+			return nil, false
+		}
+		for _, d := range f.Decls {
+			gd, ok := d.(*ast.GenDecl)
+			if !ok || gd.Tok != token.CONST {
+				continue
+			}
+			for _, sp := range gd.Specs {
+				vs := sp.(*ast.ValueSpec)
+				for i, n := range vs.Names {
+					if n.Name == x.Name && i < len(vs.Values) {
+						return c19ConstEval(s, rel, vs.Values[i])
+					}
+				}
+			}
+		}
+	case *ast.CallExpr:
+		// len(<string constant>)
+		if s.src(x.Fun) == "len" && len(x.Args) == 1 {
+			if id, ok := x.Args[0].(*ast.Ident); ok {
+				if v, ok := s.constValue(rel, id.Name); ok && v.Kind() == constant.String {
+					return constant.MakeInt64(int64(len(constant.StringVal(v)))), true
+				}
+			}
+		}
+	case *ast.BinaryExpr:
+		a, ok1 := c19ConstEval(s, rel, x.X)
+		b, ok2 := c19ConstEval(s, rel, x.Y)
+		if !ok1 || !ok2 {
+			return nil, false
+		}
+		switch x.Op {
+		case token.SHL, token.SHR:
+			n, ok := constant.Uint64Val(b)
+			if !ok || n > 62 {
+				return nil, false
+			}
+			return constant.Shift(a, x.Op, uint(n)), true
+		case token.QUO:
+			if constant.Sign(b) == 0 {
+				return nil, false
+			}
+			return constant.BinaryOp(a, token.QUO_ASSIGN, b), true
+		case token.ADD, token.SUB, token.MUL, token.AND, token.OR:
+			return constant.BinaryOp(a, x.Op, b), true
+		}
+	}
+	return nil, false
+}
+
+// c19Randn emits the constants and the translated index / acceptance / shift expressions of stringx.Randn.
+func c19Randn(s *source, e *emitter, rel string) {
+	for _, c := range []string{"letterIdxMask", "letterIdxMax"} {
+		var val ast.Expr
+		if f := s.file(rel); f != nil {
+			for _, d := range f.Decls {
+				if gd, ok := d.(*ast.GenDecl); ok && gd.Tok == token.CONST {
+					for _, sp := range gd.Specs {
+						vs := sp.(*ast.ValueSpec)
+						for i, n := range vs.Names {
+							if n.Name == c && i < len(vs.Values) {
+								val = vs.Values[i]
+							}
+						}
+					}
+				}
+			}
+		}
+		v, ok := constant.Value(nil), false
+		if val != nil {
+			v, ok = c19ConstEval(s, rel, val)
+		}
+		if !ok {
+			e.errors = append(e.errors, "constant "+c+" of "+rel+" cannot be evaluated")
+			e.printf("def %s : Nat := 0\n\n", c)
+			continue
+		}
+		e.printf("/-- `%s = %s` in %s, evaluated (with Go's precedence) -/\ndef %s : Nat := %s\n\n", c, s.src(val), rel, c, v.ExactString())
+	}
+	fd := s.findFunc(rel, "Randn")
+	fail := func(msg string) {
+		e.errors = append(e.errors, "Randn: "+msg)
+		e.printf("def randnIdx (cache : Nat) : Nat := 0\n\ndef randnAccept (idx : Nat) : Bool := false\n\ndef randnShift : Nat := 0\n\n")
+	}
+	if fd == nil {
+		fail("function not found")
+		return
+	}
+	var ifIdx *ast.IfStmt
+	var shift *ast.AssignStmt
+	ast.Inspect(fd.Body, func(n ast.Node) bool {
+		switch x := n.(type) {
+		case *ast.IfStmt:
+			if as, ok := x.Init.(*ast.AssignStmt); ok && len(as.Lhs) == 1 && s.src(as.Lhs[0]) == "idx" {
+				ifIdx = x
+			}
+		case *ast.AssignStmt:
+			if x.Tok == token.SHR_ASSIGN && len(x.Lhs) == 1 && s.src(x.Lhs[0]) == "cache" {
+				shift = x
+			}
+		}
+		return true
+	})
+	if ifIdx == nil || shift == nil {
+		fail("no `if idx := …; …` statement or no `cache >>= …`")
+		return
+	}
+	// idx := int(cache & MASK)
+	rhs := ifIdx.Init.(*ast.AssignStmt).Rhs[0]
+	if c, ok := rhs.(*ast.CallExpr); ok && s.src(c.Fun) == "int" && len(c.Args) == 1 {
+		rhs = c.Args[0]
+	}
+	be, ok := rhs.(*ast.BinaryExpr)
+	if !ok || be.Op != token.AND || s.src(be.X) != "cache" {
+		fail("index expression is not `cache & <constant>`: " + s.src(rhs))
+		return
+	}
+	mask, ok := c19ConstEval(s, rel, be.Y)
+	if !ok || constant.Sign(mask) < 0 {
+		fail("mask is not a constant")
+		return
+	}
+	// cond: idx <op> <constant>
+	ce, ok := ifIdx.Cond.(*ast.BinaryExpr)
+	ops := map[token.Token]string{token.LSS: "<", token.LEQ: "≤", token.GTR: ">", token.GEQ: "≥", token.EQL: "=", token.NEQ: "≠"}
+	if !ok || s.src(ce.X) != "idx" || ops[ce.Op] == "" {
+		fail("acceptance condition is not `idx <op> <constant>`: " + s.src(ifIdx.Cond))
+		return
+	}
+	bound, ok := c19ConstEval(s, rel, ce.Y)
+	if !ok || constant.Sign(bound) < 0 {
+		fail("acceptance bound is not a constant")
+		return
+	}
+	sh, ok := c19ConstEval(s, rel, shift.Rhs[0])
+	if !ok || constant.Sign(sh) < 0 {
+		fail("shift width is not a constant")
+		return
+	}
+	// the accepted index selects the character: b[i] = letterBytes[idx]
+	sel := false
+	for _, st := range ifIdx.Body.List {
+		if as, ok := st.(*ast.AssignStmt); ok && len(as.Rhs) == 1 && s.src(as.Rhs[0]) == "letterBytes[idx]" {
+			sel = true
+		}
+	}
+	if !sel {
+		fail("accepted index does not select `letterBytes[idx]`")
+		return
+	}
+	e.printf("/-- the index Randn reads from the cached random bits: `%s` -/\ndef randnIdx (cache : Nat) : Nat := cache &&& %s\n\n", s.src(ifIdx.Init), mask.ExactString())
+	e.printf("/-- is the index used (`%s`)? otherwise it is thrown away (rejection sampling) -/\ndef randnAccept (idx : Nat) : Bool := decide (idx %s %s)\n\n", s.src(ifIdx.Cond), ops[ce.Op], bound.ExactString())
+	e.printf("/-- bits consumed per index: `%s` -/\ndef randnShift : Nat := %s\n\n", s.src(shift), sh.ExactString())
+}
+
 func init() {
 	register("C19", func(s *source, e *emitter) {
 		const f = "core/stores/redis/redislock.go"
@@ -344,12 +936,140 @@ func init() {
 					}
 				}
 			}
+			if fn.lean == "acquire" {
+				// the same expression with Go's integer widths (int = BitVec W)
+				bad := func(msg string) {
+					e.errors = append(e.errors, "AcquireCtx: "+msg)
+					e.printf("def leaseArgW : Unit := ()\n\ndef leaseArgType : String := \"MISSING\"\n\n")
+				}
+				if leaseExpr == nil {
+					bad("no strconv.Itoa(lease) argument")
+				} else {
+					x := &c19W{s: s, rel: f, vars: c19LocalIntTypes(s, fd)}
+					secTy, okSec := x.vars["seconds"]
+					txt, ty, err := x.expr(leaseExpr)
+					switch {
+					case err != nil:
+						bad("lease expression: " + err.Error())
+					case !okSec || len(x.vars) != 1:
+						bad("the lease expression's only variable must be `seconds` loaded with atomic.LoadUint32")
+					case ty.untyped:
+						bad("lease expression is a constant")
+					default:
+						e.printf("/-- width-aware translation of `%s` (`seconds : %s`, Go `int` = `BitVec W`): the value handed to `strconv.Itoa` -/\ndef leaseArgW (W : Nat) (seconds : BitVec %s) : BitVec %s := %s\n\n",
+							s.src(leaseExpr), secTy.goName(), secTy.bits, ty.bits, txt)
+						e.printf("/-- Go types of the loaded `seconds` and of the `strconv.Itoa` argument -/\ndef leaseArgType : String := %s\n\n", leanString(secTy.goName()+" -> "+ty.goName()))
+					}
+				}
+			}
+			// KEYS / ARGV as functions of the instance's key, id and the lease text
+			{
+				keys, err1 := c19ArgList(s, args[1])
+				argv := "[]"
+				var err2 error
+				if len(args) >= 3 {
+					argv, err2 = c19ArgList(s, args[2])
+				}
+				if len(args) > 3 {
+					err2 = fmt.Errorf("more than one ARGV argument list")
+				}
+				if err1 != nil || err2 != nil {
+					e.errors = append(e.errors, fmt.Sprintf("%s: script arguments: %v %v", fn.goName, err1, err2))
+					keys, argv = "[\"MISSING\"]", "[\"MISSING\"]"
+				}
+				e.printf("/-- KEYS of the script run of `%s` -/\ndef %sKeys (key id lease : String) : List String := %s\n\n", fn.goName, fn.lean, keys)
+				e.printf("/-- ARGV of the script run of `%s` -/\ndef %sArgv (key id lease : String) : List String := %s\n\n", fn.goName, fn.lean, argv)
+			}
+			// reply decoding as a function
+			{
+				sig := "(errIsNil errNonNil respNil isString isInt64 : Bool) (replyS : String) (replyI : Int) : Bool × Bool"
+				after, ok := c19AfterScriptRun(s, fd)
+				var term string
+				var err error
+				if !ok {
+					err = fmt.Errorf("no `resp, err := ….ScriptRunCtx(…)` statement")
+				} else {
+					d := &c19Dec{s: s, atoms: map[string]string{}, kinds: map[string]string{}}
+					term, err = d.block(after, nil)
+				}
+				if err != nil {
+					e.errors = append(e.errors, fn.goName+": reply decoding: "+err.Error())
+					term = "(false, false)"
+				}
+				e.printf("/-- what `%s` returns, as a function of what go-redis handed back (translated from the statements after the script run): (result, an error is returned) -/\ndef %sDecide %s :=\n  %s\n\n", fn.goName, fn.lean, sig, term)
+			}
 			e.shapeDef(s, f, fn.goName, fn.lean+"Shape")
 			var dec []string
 			decisionShape(s, fd.Body.List, &dec)
 			e.stringList(fn.lean+"Decisions", "conditions, type assertions and returns of `"+fn.goName+"`", dec)
 		}
 		e.shapeDef(s, f, "RedisLock.SetExpire", "setExpireShape")
+		// SetExpire: the value stored, width-aware, and the word it is stored to / loaded from
+		{
+			bad := func(msg string) {
+				e.errors = append(e.errors, "SetExpire: "+msg)
+				e.printf("def setExpireArgW : Unit := ()\n\n")
+			}
+			word := []string{"MISSING", "MISSING"}
+			if fd := s.findFunc(f, "RedisLock.SetExpire"); fd == nil {
+				bad("function not found")
+			} else {
+				var store *ast.CallExpr
+				nstores := 0
+				ast.Inspect(fd.Body, func(n ast.Node) bool {
+					if c, ok := n.(*ast.CallExpr); ok && strings.HasPrefix(s.src(c.Fun), "atomic.Store") {
+						store = c
+						nstores++
+					}
+					return true
+				})
+				x := &c19W{s: s, rel: f, vars: c19LocalIntTypes(s, fd)}
+				par, okPar := x.vars["seconds"]
+				switch {
+				case nstores != 1 || len(store.Args) != 2 || len(fd.Body.List) != 1:
+					bad("body is not one atomic store")
+				case !okPar || len(x.vars) != 1:
+					bad("parameter `seconds` with an integer type expected")
+				default:
+					txt, ty, err := x.expr(store.Args[1])
+					if err != nil || ty.untyped {
+						bad(fmt.Sprintf("stored expression: %v", err))
+					} else {
+						word[0] = "store " + s.src(store.Fun) + " " + s.src(store.Args[0])
+						e.printf("/-- width-aware translation of the value `SetExpire(seconds %s)` stores: `%s` -/\ndef setExpireArgW (W : Nat) (seconds : BitVec %s) : BitVec %s := %s\n\n",
+							par.goName(), s.src(store.Args[1]), par.bits, ty.bits, txt)
+					}
+				}
+			}
+			if fd := s.findFunc(f, "RedisLock.AcquireCtx"); fd != nil {
+				ast.Inspect(fd.Body, func(n ast.Node) bool {
+					if c, ok := n.(*ast.CallExpr); ok && strings.HasPrefix(s.src(c.Fun), "atomic.Load") && len(c.Args) == 1 {
+						word[1] = "load " + s.src(c.Fun) + " " + s.src(c.Args[0])
+					}
+					return true
+				})
+			}
+			e.stringList("secondsWord", "the shared word: where SetExpire stores and where AcquireCtx loads", word)
+			// the field's declared type
+			fieldTy := "MISSING"
+			if file := s.file(f); file != nil {
+				ast.Inspect(file, func(n ast.Node) bool {
+					if ts, ok := n.(*ast.TypeSpec); ok && ts.Name.Name == "RedisLock" {
+						if st, ok := ts.Type.(*ast.StructType); ok {
+							for _, fl := range st.Fields.List {
+								for _, nm := range fl.Names {
+									if nm.Name == "seconds" {
+										fieldTy = s.src(fl.Type)
+									}
+								}
+							}
+						}
+					}
+					return true
+				})
+			}
+			e.stringList("secondsField", "declared type of RedisLock.seconds", []string{fieldTy})
+		}
 
 		// every call that could be a store round trip or an access of the shared word, per function on the path
 		for _, fn := range []struct{ file, goName, lean, doc string }{
@@ -377,6 +1097,7 @@ func init() {
 		// (the shared constant evaluator has no shifts: the two derived constants are tied as source text)
 		e.stringList("letterIdxDerived", "`letterIdxMask` and `letterIdxMax` as written", []string{
 			"letterIdxMask = " + constSrc(s, rf, "letterIdxMask"), "letterIdxMax = " + constSrc(s, rf, "letterIdxMax")})
+		c19Randn(s, e, rf)
 		if fd := s.findFunc(rf, "Randn"); fd == nil {
 			e.errors = append(e.errors, "function Randn not found in "+rf)
 			e.stringList("randnBody", "MISSING", []string{"MISSING"})
@@ -384,6 +1105,15 @@ func init() {
 			var body []string
 			flatStmts(s, fd.Body.List, &body)
 			e.stringList("randnBody", "statements of `stringx.Randn`", body)
+		}
+		// NewScript: the wrapper through which the two package-level scripts are built
+		if fd := s.findFunc("core/stores/redis/redis.go", "NewScript"); fd == nil {
+			e.errors = append(e.errors, "function NewScript not found in core/stores/redis/redis.go")
+			e.stringList("newScriptBody", "MISSING", []string{"MISSING"})
+		} else {
+			var body []string
+			flatStmts(s, fd.Body.List, &body)
+			e.stringList("newScriptBody", "statements of `redis.NewScript`", body)
 		}
 		// the fields NewRedisLock sets (id must be a fresh random string per instance, key the caller's key)
 		if fd := s.findFunc(f, "NewRedisLock"); fd == nil {
